@@ -117,6 +117,8 @@ type diffRun struct {
 	g       *fsGen
 	muts    int
 	i       int
+	quiet   bool // do not walk the SUT between steps
+	last    bool
 }
 
 func newDiffRun(t *T, kind int, alpha []string) (*diffRun, func()) {
@@ -167,6 +169,17 @@ func (d *diffRun) step(o Op) {
 	if o.Mutating() {
 		pinned := map[string]int64(d.pins)
 		d.refSnap = takeSnapshot(d.ref, snapOpts{Pinned: pinned})
+		if d.quiet && !d.last {
+			// quiet trials: the SUT is not walked between steps (a walk is dozens of Stat/Open/ReadDir calls that
+			// a bug may depend on the absence of); its tree is compared after the last step only
+			if d.g != nil {
+				d.g.observe(d.refSnap)
+			}
+			if want.Err == nil {
+				d.muts++
+			}
+			return
+		}
 		sutSnap := takeSnapshot(d.sut, snapOpts{Probe: d.probe, Pinned: pinned})
 		if d.refSnap.Text != sutSnap.Text {
 			t.Fail("tree", "C01:tree:"+sig+":os="+okFail(want.Err),
@@ -195,13 +208,19 @@ func runC01(t *T) {
 	defer cleanup()
 	d.g = newFsGen(t, alpha, 3)
 	n := 1 + c.Draw(24)
-	t.Logf("sut=%s steps=%d", sutName(kind), n)
+	d.quiet = c.Chance(1, 3)
+	t.Logf("sut=%s steps=%d quiet=%v", sutName(kind), n, d.quiet)
 	for i := 0; i < n; i++ {
 		o := d.g.next()
 		if d.skip(o) {
 			continue
 		}
 		d.step(o)
+	}
+	if d.quiet {
+		// one more, harmless mutation so that the final trees are compared
+		d.last = true
+		d.step(Op{Kind: "Mkdir", P: "zz-final", Perm: 0755})
 	}
 	if d.muts > 0 {
 		t.NonTrivial()
